@@ -215,14 +215,19 @@ def canon_series(s):
 
 # ------------------------------------------------------------------ strategies (execution routes)
 @contextlib.contextmanager
-def strategy(chunk_threshold=None, rows_per_thread=None, jitter_seed=None):
+def strategy(chunk_threshold=None, rows_per_thread=None, jitter_seed=None, max_cartesian=None):
     """Force the chunked-factorization route / several threads on small inputs, and
     permute the completion order of parallel_map tasks.  Module globals are patched
-    at run time (they are read at call time) and restored afterwards."""
+    at run time (they are read at call time) and restored afterwards.  max_cartesian lowers the size of the cartesian
+    product of label counts from which factorize_2d folds its leading keys together (in production: 2**62)."""
     import groupby_lib.groupby.core as core
     import groupby_lib.util as util
+    import groupby_lib.groupby.factorization as fact
     saved = {}
     try:
+        if max_cartesian is not None and hasattr(fact, "MAX_CARTESIAN_PRODUCT"):
+            saved["mc"] = fact.MAX_CARTESIAN_PRODUCT
+            fact.MAX_CARTESIAN_PRODUCT = max_cartesian
         if chunk_threshold is not None:
             saved["thr"] = core.THRESHOLD_FOR_CHUNKED_FACTORIZE
             core.THRESHOLD_FOR_CHUNKED_FACTORIZE = chunk_threshold
@@ -250,6 +255,8 @@ def strategy(chunk_threshold=None, rows_per_thread=None, jitter_seed=None):
                 mod.parallel_map = jittered
         yield
     finally:
+        if "mc" in saved:
+            fact.MAX_CARTESIAN_PRODUCT = saved["mc"]
         if "thr" in saved:
             core.THRESHOLD_FOR_CHUNKED_FACTORIZE = saved["thr"]
         if "mt" in saved:
